@@ -227,7 +227,8 @@ def check_valid(sym: Symbol, s: str) -> Tuple[bool, Optional[str]]:
             if expr_value(cond):
                 low_s = low_sym.str_value
                 high_s = high_sym.str_value
-                if not float(low_s) <= val <= float(high_s):
+                # An option without a value as a bound counts as 0, as in Symbol.str_value
+                if not (float(low_s) if is_float(low_s) else 0.0) <= val <= (float(high_s) if is_float(high_s) else 0.0):
                     return False, f"{s} is outside the range {low_s} to {high_s}"
                 break
 
@@ -239,11 +240,18 @@ def check_valid(sym: Symbol, s: str) -> Tuple[bool, Optional[str]]:
     except ValueError:
         return False, f"'{s}' is a malformed {TYPE_TO_STR[sym.orig_type]} value"
 
+    def _bound(b: str) -> int:
+        # An option without a value as a bound counts as 0, as in Symbol.str_value
+        try:
+            return int(b, base)
+        except ValueError:
+            return 0
+
     for low_sym, high_sym, cond in sym.ranges:
         if expr_value(cond):
             low_s = low_sym.str_value
             high_s = high_sym.str_value
-            if not int(low_s, base) <= int(s, base) <= int(high_s, base):
+            if not _bound(low_s) <= int(s, base) <= _bound(high_s):
                 return False, f"{s} is outside the range {low_s} to {high_s}"
             break
 
